@@ -127,6 +127,9 @@ func (w *World) RunScript(lines []string) (err error) {
 				}
 			}
 			line = strings.Join(toks, " ")
+			if strings.Contains(line, "e0") && len(w.stores[p].OpLog().Values().Slice()) == 0 {
+				continue // no entry to use as a bound
+			}
 		}
 		w.printf("op %s\n", line)
 		if err := w.execOp(toks); err != nil {
